@@ -14,17 +14,17 @@ transcribed deviations of the pinned code.
      explains the real observations step by step?  -> specific signature (known finding) / unexplained (violation).
   6. trace validation of free-running concurrent sessions: committed transactions serialised by commit tx id.
 """
-import json, os, re, sys, concurrent.futures as cf
+import json, os, re, sys, time, concurrent.futures as cf
 sys.path.insert(0, os.path.join(os.path.dirname(os.path.abspath(__file__)), "..", "lib"))
 import vlib
 from vlib import MachineryFault
 
 ALLQ = ["sp_keeps_writes", "uniq_tombstone_first", "lazy_usnap", "uidx_no_own_removal", "auto_ignores_explicit",
-        "pk_get_sees_own_deleted", "ddl_first_pk_only"]
+        "pk_get_sees_own_deleted", "upd_own_inserted_u_fails", "ddl_first_pk_only"]
 ALLKINDS = ["begin", "commit", "rollback", "close", "sp", "rbto", "rel", "insA", "insAbad", "insE", "insN", "ups", "updU", "updV",
             "updAllV", "del", "delAll", "selAll", "selPk", "selU", "crIdx"]
 INVS = ["ConstraintsHold", "OwnWritesVisible", "NoDirtyReads", "IndexViewConsistent", "NoQuirkFired"]
-PROPS = ["NoDirtyReadsAct", "FailedStatementNoEffect", "AllOrNothing", "CountsMatchApplied", "RollbackToUndoesExactlySuffix"]
+PROPS = ["StatementsSeeOwnWrites", "NoDirtyReadsAct", "FailedStatementNoEffect", "AllOrNothing", "CountsMatchApplied", "RollbackToUndoesExactlySuffix"]
 
 # which kinds of deviation from the design each property forbids (the others are reported as out-of-scope notes)
 RELEVANT = {
@@ -91,7 +91,9 @@ def trace_states(out):
 
 def mc_code(name, c, expect):
     """Exhaustive run of the code as transcribed; returns (res, statements of the counterexample)."""
-    res = vlib.run_tlc("SQLTx", "mc.cfg", workers=1, timeout=600, files=[("mc.cfg", cfg(c, invs=INVS[:-1], props=PROPS))], tag="sqltx-code")
+    only = expect == {"ConstraintsHold"}
+    res = vlib.run_tlc("SQLTx", "mc.cfg", workers=1, timeout=600, tag="sqltx-code",
+                       files=[("mc.cfg", cfg(c, invs=["ConstraintsHold"] if only else INVS[:-1], props=[] if only else PROPS))])
     if res.error:
         raise MachineryFault("SQLTx code model [%s]: %s" % (name, res.error))
     if not res.violation:
@@ -103,6 +105,16 @@ def mc_code(name, c, expect):
     stmts = [{"s": x["s"], "k": x["k"], "id": x["id"], "u": x["u"], "v": x["v"]} for x in sts if x["k"] not in ("init", "end")]
     if not stmts:
         raise MachineryFault("cannot parse the counterexample of %s" % name)
+    # make the model state observable: every transaction still open reads the table (both access paths) and commits
+    st = {}
+    for x in sts:
+        if x["k"] not in ("init", "end"):
+            st[x["s"]] = x["st"]
+    for s in sorted(st):
+        if st[s] == "tx":
+            stmts += [{"s": s, "k": "selAll", "id": 0, "u": "", "v": ""}] + \
+                     [{"s": s, "k": "selU", "id": 0, "u": u, "v": ""} for u in sorted(c["UVals"])] + \
+                     [{"s": s, "k": "commit", "id": 0, "u": "", "v": ""}]
     return res, stmts
 
 
@@ -133,24 +145,26 @@ def simulate(c, num, seed, timeout=600):
     return res, out
 
 
-def trace_run(scripts, quirks, c, check_real=False, timeout=600, tag="sqltx-trace"):
-    """Drive SQLTx by scripts (list of list of step dicts; a step with 'chk': 1 carries real observations).
-    Returns {b: {steps, fired, dead, mism}} and the TLC result."""
-    lines = []
-    for b, steps in enumerate(scripts):
-        lines.append(json.dumps({"ev": "reset", "b": b}))
+def trace_run(scripts, c, check_real=False, timeout=900, tag="sqltx-trace"):
+    """Drive SQLTx by scripts: list of (quirks, steps); a step with 'chk': 1 carries real observations.
+    Returns {b: {q, steps, fired, dead, mism}} and the TLC result."""
+    lines, starts = [], {}
+    for b, (quirks, steps) in enumerate(scripts):
+        lines.append(json.dumps({"ev": "reset", "b": b, "q": sorted(quirks)}))
+        starts[b] = len(lines)            # 1-based line number of the reset event
         for st in steps:
             e = {"ev": st.get("ev", "step"), "b": b}
             if e["ev"] == "scan":
                 e["rows"] = st["rows"]
+                e["cmp"] = st.get("cmp", 0)
             else:
-                e.update({"s": st["s"], "k": st["k"], "id": st["id"], "u": st["u"], "v": st["v"], "chk": st.get("chk", 0),
+                e.update({"s": st["s"], "k": st["k"], "id": st["id"], "u": st["u"], "v": st["v"], "chk": st.get("chk", 0), "ct": st.get("ct", 1),
                           "out": st.get("out", ""), "res": st.get("res", []), "cnt": st.get("cnt", 0), "pk": st.get("pk", 0),
-                          "tbl": st.get("tbl", [])})
+                          "tbl": st.get("tbl") or []})
             lines.append(json.dumps(e))
-    lines.append(json.dumps({"ev": "reset", "b": len(scripts)}))
-    ns = max([1] + [st["s"] for steps in scripts for st in steps if "s" in st])
-    c = dict(c, NS=ns, TxSessions=set(range(1, ns + 1)), MaxStmts=100000, Quirks=set(quirks), EmitDepth=1, Kinds=set(ALLKINDS))
+    lines.append(json.dumps({"ev": "reset", "b": len(scripts), "q": []}))
+    ns = max([1] + [st["s"] for _, steps in scripts for st in steps if "s" in st])
+    c = dict(c, NS=ns, TxSessions=set(range(1, ns + 1)), MaxStmts=100000, Quirks=set(), EmitDepth=1, Kinds=set(ALLKINDS))
     text = cfg(c, spec="TraceSpec", invs=(["RealConstraintsHold"] if check_real else []), view=False, post="TraceAccepted")
     res = vlib.run_tlc("TraceSQLTx", "trace.cfg", workers=1, timeout=timeout, files=[("trace.cfg", text), ("trace.ndjson", "\n".join(lines) + "\n")], tag=tag)
     if res.error:
@@ -160,13 +174,14 @@ def trace_run(scripts, quirks, c, check_real=False, timeout=600, tag="sqltx-trac
         r["steps"] = fix_steps(r["steps"] if isinstance(r["steps"], list) else [])
         r["mism"] = r["mism"] if isinstance(r["mism"], list) else []
         r["fired"] = r["fired"] if isinstance(r["fired"], list) else []
+        r["mstep"] = (r["mism"][0] - starts[r["b"]] - 1) if r["mism"] else None      # index of the mismatching event in its script
         got[r["b"]] = r
     return got, res
 
 
 def design_predict(stmt_lists, c):
     """Design observations for given statement sequences (counterexamples of the code model)."""
-    got, res = trace_run(stmt_lists, set(), c)
+    got, res = trace_run([(set(), x) for x in stmt_lists], c)
     if res.violation or res.postcondition_failed:
         raise MachineryFault("TraceSQLTx (design prediction) rejected its own script:\n" + res.out[-2000:])
     out = []
@@ -189,33 +204,34 @@ def observed_script(dev):
     steps = []
     for o in dev["observed"]:
         steps.append({"s": o["s"], "k": o["k"], "id": o["id"], "u": o["u"], "v": o["v"], "chk": 1, "out": o["out"],
-                      "res": rows_back(o["res"] or []), "cnt": o["cnt"], "pk": o["pk"], "tbl": rows_back(o["tbl"] or [])})
+                      "res": rows_back(o["res"] or []), "cnt": o["cnt"], "pk": o["pk"], "ct": 0 if o["tbl"] is None else 1,
+                      "tbl": rows_back(o["tbl"] or [])})
     return steps
 
 
-def attribute(devs, c, quirks=ALLQ):
-    """For every deviation: the single quirk (or the set of fired quirks) under which the transcribed code explains
-    all real observations of the behaviour up to and including the deviating step; None = unexplained."""
+def attribute(devs, c, quirks=ALLQ, scripts=None):
+    """For every deviation: the quirks under which the transcribed code explains all real observations of the
+    behaviour up to and including the deviating step: [q] if a single quirk suffices, else the quirks blamed by the
+    full transcription (at the deviating step, or so far in the behaviour); [] = unexplained."""
     if not devs:
         return []
-    scripts = [observed_script(d) for d in devs]
+    obs = scripts if scripts is not None else [observed_script(d) for d in devs]
     runs = [[q] for q in quirks] + [list(quirks)]
-
-    def one(qs):
-        got, res = trace_run(scripts, qs, c, tag="sqltx-attr")
-        if res.violation and res.violation != "RealConstraintsHold":
-            raise MachineryFault("TraceSQLTx attribution run %s: %s\n%s" % (qs, res.violation, res.out[-1500:]))
-        return qs, got
-
-    with cf.ThreadPoolExecutor(4) as ex:
-        results = list(ex.map(one, runs))
+    got, res = trace_run([(qs, o) for o in obs for qs in runs], c, tag="sqltx-attr")     # one JVM for all (deviation, quirk set) pairs
+    if res.violation or res.postcondition_failed:
+        raise MachineryFault("TraceSQLTx attribution run: %s\n%s" % (res.violation, res.out[-1500:]))
     out = []
     for b, d in enumerate(devs):
-        who = None
-        for qs, got in results:
-            r = got.get(b)
-            if r and not r["dead"] and not r["mism"] and len(r["steps"]) == len(scripts[b]):
-                who = qs[0] if len(qs) == 1 else "+".join(sorted(r["fired"])) or "code-model"
+        who = []
+        nsteps = len([x for x in obs[b] if x.get("ev", "step") == "step"])
+        for ri, qs in enumerate(runs):
+            r = got.get(b * len(runs) + ri)
+            if r and not r["dead"] and not r["mism"] and len(r["steps"]) == nsteps:
+                if len(qs) == 1:
+                    who = qs
+                else:
+                    step_tags = (r["steps"][-1].get("tags") or []) if r["steps"] else []
+                    who = sorted(step_tags) or sorted(r["fired"]) or ["code-model"]
                 break
         out.append(who)
     return out
@@ -224,57 +240,75 @@ def attribute(devs, c, quirks=ALLQ):
 def report(chk, devs, who, source):
     rel = RELEVANT[chk.pid]
     oos = chk.cov.setdefault("out_of_scope_deviations", {})
-    for d, q in zip(devs, who):
-        sig = "sqltx:%s:%s" % (q if q else "unexplained:" + d["kind"], d["class"])
-        if d["class"] not in rel:
-            oos[sig] = oos.get(sig, 0) + 1
-            continue
-        text = ("%s (%s, explained by the transcribed quirk %s)" % (d["text"], source, q)) if q else ("%s (%s, not explained by any transcribed quirk)" % (d["text"], source))
-        chk.violation(sig, text, {"source": source, "origin": d.get("origin"), "sql": d.get("sql"), "expected": d.get("expected"),
-                                  "observed": d.get("observed"), "repro": "harness/cmd/c12 -script (see docs/%s.md)" % chk.pid})
+    for d, qs in zip(devs, who):
+        # a deviation that needs several transcribed quirks together is reported under each of them
+        for q in (qs or [None]):
+            sig = "sqltx:%s:%s" % (q if q else "unexplained:" + d["kind"], d["class"])
+            if d["class"] not in rel:
+                oos[sig] = oos.get(sig, 0) + 1
+                continue
+            text = ("%s (%s, explained by the transcribed quirk(s) %s)" % (d["text"], source, "+".join(qs))) if q else \
+                   ("%s (%s, not explained by any transcribed quirk)" % (d["text"], source))
+            chk.violation(sig, text, {"source": source, "origin": d.get("origin"), "sql": d.get("sql"), "expected": d.get("expected"),
+                                      "observed": d.get("observed"), "repro": "harness/cmd/c12 -script (see docs/%s.md)" % chk.pid})
 
 
 # ------------------------------------------------------------------ the two profiles
 def profile(pid, tier):
+    """Bounds per property and tier, fitted to measured state counts (quick: each exhaustive run < 10^5 generated states)."""
     thorough = tier == "thorough"
     if pid == "C12":
-        dml = {"insA", "insAbad", "insE", "ups", "updU", "del"}
-        return {
-            # exhaustive, design: constraint checks under every interleaving of autocommit statements and transactions
-            "design": [
-                ("2 tx sessions x 3", consts(NS=2, MaxStmts=3, VVals={"p"}, ExplIds={1, 2}, Kinds={"begin", "commit", "insA", "del", "ups", "updU"}), 6),
-                ("tx + autocommit, bad values", consts(NS=2, MaxStmts=3, VVals={"p"}, ExplIds={1}, TxSessions={1}, Kinds={"begin", "commit", "rollback", "insA", "insAbad", "insE", "insN", "updV", "delAll"}), 4),
-                ("ddl: create unique index", consts(NS=2, MaxStmts=3, VVals={"p"}, ExplIds={1}, TxSessions={1}, InitUIdx=False, Kinds={"begin", "commit", "insA", "del", "crIdx"}), 4),
-            ] + ([("3 sessions x 3", consts(NS=3, MaxStmts=3, VVals={"p"}, ExplIds={1}, TxSessions={1, 2, 3}, Kinds={"begin", "commit", "insA", "del", "updU"}), 8)] if thorough else []),
-            "code": [
-                ("uniq_tombstone_first", consts(NS=1, MaxStmts=4, VVals={"p"}, TxSessions=set(), Kinds={"insA", "del"}, Quirks={"uniq_tombstone_first"}), {"ConstraintsHold"}),
-                ("ddl_first_pk_only", consts(NS=1, MaxStmts=5, VVals={"p"}, TxSessions=set(), InitUIdx=False, Kinds={"insA", "del", "crIdx"}, Quirks={"ddl_first_pk_only"}), {"ConstraintsHold"}),
-            ],
-            "sim": [
-                (consts(NS=2, MaxStmts=5, Kinds=set(ALLKINDS) - {"crIdx", "sp", "rbto", "rel", "selU"}), 700 if thorough else 160),
-                (consts(NS=3, MaxStmts=4, TxSessions={1, 2}, Kinds={"begin", "commit", "rollback", "insA", "insE", "ups", "updU", "del", "delAll", "selAll"}), 500 if thorough else 120),
-                (consts(NS=2, MaxStmts=5, InitUIdx=False, TxSessions={1}, Kinds={"begin", "commit", "insA", "insE", "ups", "updU", "del", "delAll", "crIdx", "selAll"}), 300 if thorough else 80),
-            ],
-        }
-    return {
-        "design": [
-            ("savepoints, 1 tx session x 6 + autocommit x 1", consts(NS=2, MaxStmts=6, VVals={"p"}, ExplIds={1}, TxSessions={1},
-                                                                Kinds={"begin", "commit", "rollback", "sp", "rbto", "rel", "insA", "del", "updU"}), 6),
-            ("2 tx sessions x 3, queries", consts(NS=2, MaxStmts=3, VVals={"p"}, ExplIds={1}, Kinds={"begin", "commit", "rollback", "close", "insA", "ups", "del", "selAll", "selU"}), 6),
-        ] + ([("2 tx + 1 read-only x 3", consts(NS=3, MaxStmts=3, VVals={"p"}, ExplIds={1}, TxSessions={1, 2}, Kinds={"begin", "commit", "rollback", "insA", "updU", "del", "selAll"}), 8)] if thorough else []),
-        "code": [
-            ("sp_keeps_writes", consts(NS=1, MaxStmts=5, VVals={"p"}, Kinds={"begin", "commit", "sp", "rbto", "insA"}, TxSessions={1}, Quirks={"sp_keeps_writes"}), {"RollbackToUndoesExactlySuffix", "OwnWritesVisible"}),
-            ("lazy_usnap", consts(NS=2, MaxStmts=3, VVals={"p"}, TxSessions={1}, Kinds={"begin", "insA", "selU", "selAll"}, Quirks={"lazy_usnap"}), {"NoDirtyReads", "IndexViewConsistent"}),
-            ("uidx_no_own_removal", consts(NS=1, MaxStmts=4, VVals={"p"}, ExplIds={1}, TxSessions={1}, Kinds={"begin", "insA", "del", "selU"}, Quirks={"uidx_no_own_removal"}), {"IndexViewConsistent", "OwnWritesVisible"}),
+        design = [
+            # constraint checks under every interleaving of two transactions / autocommit statements
+            ("2 tx sessions x 3", consts(NS=2, MaxStmts=3, VVals={"p"}, ExplIds={1}, Kinds={"begin", "commit", "insA", "del", "ups", "updU"}), 3),
+            ("tx + autocommit, illegal values, explicit keys", consts(NS=2, MaxStmts=3, VVals={"p"}, ExplIds={1}, TxSessions={1},
+                                                                  Kinds={"begin", "commit", "rollback", "insA", "insAbad", "insE", "insN", "updV", "delAll"}), 3),
+            ("ddl: create unique index on a populated table", consts(NS=2, MaxStmts=3, VVals={"p"}, ExplIds={1}, TxSessions={1}, InitUIdx=False,
+                                                                 Kinds={"begin", "commit", "insA", "del", "crIdx"}), 2),
+        ]
+        if thorough:
+            design += [("3 sessions x 3", consts(NS=3, MaxStmts=3, VVals={"p"}, ExplIds={1}, TxSessions={1, 2, 3}, Kinds={"begin", "commit", "insA", "del", "updU"}), 8),
+                       ("2 tx sessions x 4", consts(NS=2, MaxStmts=4, VVals={"p"}, ExplIds={1}, Kinds={"begin", "commit", "insA", "del", "ups", "updU"}), 8)]
+        code = [
+            ("uniq_tombstone_first", consts(NS=1, MaxStmts=4, VVals={"p"}, TxSessions=set(), Kinds={"insA", "del"}, Quirks={"uniq_tombstone_first"}), {"ConstraintsHold"}),
+            ("ddl_first_pk_only", consts(NS=1, MaxStmts=5, VVals={"p"}, TxSessions=set(), InitUIdx=False, Kinds={"insA", "del", "crIdx"}, Quirks={"ddl_first_pk_only"}), {"ConstraintsHold"}),
+        ]
+        sim = [
+            (consts(NS=3, MaxStmts=5, TxSessions={1, 2}, Kinds=set(ALLKINDS) - {"crIdx", "sp", "rbto", "rel"}), 1200 if thorough else 240),
+            (consts(NS=2, MaxStmts=6, InitUIdx=False, TxSessions={1}, Kinds={"begin", "commit", "insA", "insE", "ups", "updU", "del", "delAll", "crIdx", "selAll"}), 400 if thorough else 80),
+        ]
+        if thorough:
+            sim += [(consts(NS=2, MaxStmts=8, Kinds=set(ALLKINDS) - {"crIdx"}), 800)]
+        return {"design": design, "code": code, "sim": sim}
+    design = [
+        ("savepoints (2 names, nesting, re-use), 1 session x 7", consts(NS=1, MaxStmts=7, VVals={"p"}, ExplIds={1}, TxSessions={1},
+                                                                    Kinds={"begin", "commit", "sp", "rbto", "rel", "insA", "del"}), 3),
+        ("savepoints, tx session x 5 + autocommit session", consts(NS=2, MaxStmts=5, VVals={"p"}, UVals={"a"}, ExplIds={1}, TxSessions={1},
+                                                               Kinds={"begin", "commit", "sp", "rbto", "insA", "del"}), 3),
+        ("2 tx sessions x 3, rollback/close, queries by both access paths", consts(NS=2, MaxStmts=3, VVals={"p"}, UVals={"a"}, ExplIds={1},
+                                                                                  Kinds={"begin", "commit", "rollback", "close", "insA", "ups", "del", "selAll", "selU"}), 3),
+    ]
+    if thorough:
+        design += [("2 tx + 1 read-only x 3", consts(NS=3, MaxStmts=3, VVals={"p"}, ExplIds={1}, TxSessions={1, 2}, Kinds={"begin", "commit", "rollback", "insA", "updU", "del", "selAll"}), 8),
+                   ("savepoints, 1 session x 8", consts(NS=1, MaxStmts=8, VVals={"p"}, ExplIds={1}, TxSessions={1}, Kinds={"begin", "commit", "rollback", "sp", "rbto", "rel", "insA", "del", "updU"}), 8)]
+    code = [
+        ("sp_keeps_writes", consts(NS=1, MaxStmts=5, VVals={"p"}, Kinds={"begin", "commit", "sp", "rbto", "insA"}, TxSessions={1}, Quirks={"sp_keeps_writes"}), {"RollbackToUndoesExactlySuffix", "OwnWritesVisible"}),
+        ("lazy_usnap", consts(NS=2, MaxStmts=3, VVals={"p"}, TxSessions={1}, Kinds={"begin", "insA", "selU", "selAll"}, Quirks={"lazy_usnap"}), {"NoDirtyReads", "IndexViewConsistent"}),
+        ("uidx_no_own_removal", consts(NS=1, MaxStmts=4, VVals={"p"}, ExplIds={1}, TxSessions={1}, Kinds={"begin", "insA", "del", "selU"}, Quirks={"uidx_no_own_removal"}), {"IndexViewConsistent", "OwnWritesVisible"}),
+    ]
+    if thorough:
+        code += [
             ("pk_get_sees_own_deleted", consts(NS=1, MaxStmts=4, VVals={"p"}, ExplIds={1}, TxSessions={1}, Kinds={"begin", "insA", "del", "insN", "ups"}, Quirks={"pk_get_sees_own_deleted"}), None),
             ("auto_ignores_explicit", consts(NS=1, MaxStmts=3, VVals={"p"}, ExplIds={1, 2}, TxSessions={1}, Kinds={"begin", "insA", "insE"}, Quirks={"auto_ignores_explicit"}), None),
-        ],
-        "sim": [
-            (consts(NS=2, MaxStmts=7, TxSessions={1, 2}), 800 if thorough else 200),
-            (consts(NS=1, MaxStmts=9, TxSessions={1}, Kinds={"begin", "commit", "rollback", "sp", "rbto", "rel", "insA", "ups", "updU", "updV", "del", "selAll", "selU"}), 500 if thorough else 120),
-            (consts(NS=3, MaxStmts=4, TxSessions={1, 2}), 400 if thorough else 80),
-        ],
-    }
+            ("upd_own_inserted_u_fails", consts(NS=1, MaxStmts=3, VVals={"p"}, ExplIds={1}, TxSessions={1}, Kinds={"begin", "insA", "updU"}, Quirks={"upd_own_inserted_u_fails"}), None),
+        ]
+    sim = [
+        (consts(NS=2, MaxStmts=8, TxSessions={1, 2}), 1200 if thorough else 240),
+        (consts(NS=3, MaxStmts=4, TxSessions={1, 2}), 600 if thorough else 100),
+    ]
+    if thorough:
+        sim += [(consts(NS=1, MaxStmts=10, TxSessions={1}, Kinds={"begin", "commit", "rollback", "sp", "rbto", "rel", "insA", "ups", "updU", "updV", "del", "selAll", "selU"}), 600)]
+    return {"design": design, "code": code, "sim": sim}
 
 
 def run_sqltx(chk, args):
@@ -283,24 +317,26 @@ def run_sqltx(chk, args):
     wd = vlib.scratch(chk.pid)
     base = consts()
 
-    # 1. design, exhaustive (in parallel)
-    with cf.ThreadPoolExecutor(len(prof["design"])) as ex:
-        futs = [(name, ex.submit(mc_design, name, c, w)) for name, c, w in prof["design"]]
-        # 2. code as transcribed, one quirk at a time
+    # 1. design, exhaustive; 2. code as transcribed, one quirk at a time; 3. simulation of the design (all in parallel)
+    t0 = time.time()
+    with cf.ThreadPoolExecutor(int(os.environ.get("VERIF_PAR", "5"))) as ex:
+        fd = [(name, ex.submit(mc_design, name, c, w)) for name, c, w in prof["design"]]
+        fc = [(name, c, ex.submit(mc_code, name, c, expect)) for name, c, expect in prof["code"]]
+        fs = [(c, num, ex.submit(simulate, c, num, chk.seed * 1000 + i)) for i, (c, num) in enumerate(prof["sim"])]
         cex = []
-        for name, c, expect in prof["code"]:
-            res, stmts = mc_code(name, c, expect)
+        for name, c, fut in fc:
+            res, stmts = fut.result()
             chk.add_tlc(res, "SQLTx code Quirks={%s} -> %s" % (name, res.violation))
             cex.append((name, res.violation, stmts, c))
-        # 3. simulation of the design
         behaviours = {}   # uidx -> list
-        for i, (c, num) in enumerate(prof["sim"]):
-            res, bs = simulate(c, num, chk.seed * 1000 + i)
+        for c, num, fut in fs:
+            res, bs = fut.result()
             chk.add_tlc(res, "SQLTx -simulate NS=%d MaxStmts=%d num=%d" % (c["NS"], c["MaxStmts"], num))
             behaviours.setdefault(c["InitUIdx"], []).extend(bs)
-        for name, fut in futs:
+        for name, fut in fd:
             res = fut.result()
             chk.add_tlc(res, "SQLTx design [%s]" % name)
+    vlib.log("[tlc] model checking + simulation %.1fs" % (time.time() - t0))
     for uidx in (True, False):
         lists = [stmts for name, viol, stmts, c in cex if c["InitUIdx"] == uidx]
         names = [(name, viol) for name, viol, stmts, c in cex if c["InitUIdx"] == uidx]
@@ -324,15 +360,143 @@ def run_sqltx(chk, args):
         json.dump({"uidx": uidx, "behaviours": bs}, open(p, "w"))
         dd = os.path.join(wd, "d%d" % uidx)
         os.makedirs(dd)
+        t0 = time.time()
         out, _ = vlib.run_harness(binp, ["-replay", p, "-dir", dd] + (["-selftest"] if selftest and uidx else []), timeout=1500)
         r = json.loads(out)
         devs = (r.get("extra") or {}).pop("deviations", None) or []
         vlib.absorb(chk, r)
+        t1 = time.time()
         who = attribute(devs, dict(base, InitUIdx=uidx))
+        vlib.log("[replay] uidx=%s %d behaviours %.1fs, %d deviations attributed in %.1fs" % (uidx, len(bs), t1 - t0, len(devs), time.time() - t1))
         report(chk, devs, who, "replay of TLC behaviours")
     chk.cov["behaviours_replayed"] = sum(len(b) for b in behaviours.values())
     chk.cov["steps_replayed"] = chk.cov["evaluations"]
+    # 6. trace validation
+    t0 = time.time()
+    thorough = chk.tier == "thorough"
+    trace_validation(chk, binp, wd, runs=40 if thorough else 12, workers=3, units=12 if thorough else 8)
+    vlib.log("[tv] %.1fs" % (time.time() - t0))
     return binp, wd
+
+
+# ------------------------------------------------------------------ trace validation of free-running sessions
+def real_breach(rows):
+    ids, us = set(), set()
+    for r in rows:
+        if r[0] in ids or r[1] in us or r[1] in ("NULL", "") or r[2] in ("NULL", "x", "") or len(r[1]) > 4 or len(r[2]) > 2:
+            return True
+        ids.add(r[0])
+        us.add(r[1])
+    return False
+
+
+def serialise(events):
+    """One run of free sessions -> the script of its committed units in the order of their commit tx ids."""
+    units, scans, final = {}, [], None
+    for ev in events:
+        if ev["k"] == "scan":
+            if ev.get("final"):
+                final = ev["scan"] or []
+            else:
+                scans.append(ev["scan"] or [])
+            continue
+        units.setdefault((ev["w"], ev["unit"]), []).append(ev)
+    committed, skipped = [], 0
+    for key, evs in units.items():
+        evs.sort(key=lambda e: e["seq"])
+        lastev = evs[-1]
+        if evs[0]["k"] == "begin":
+            ok = lastev["k"] == "commit" and lastev["out"] == "ok" and lastev["commit"] > 0
+        else:
+            ok = lastev["out"] == "ok" and lastev["commit"] > 0
+        if ok:
+            committed.append((lastev["commit"], evs))
+        else:
+            skipped += 1
+    committed.sort(key=lambda x: x[0])
+    ids = [c for c, _ in committed]
+    if len(set(ids)) != len(ids):
+        raise MachineryFault("two units report the same commit tx id")
+    steps = []
+    for cid, evs in committed:
+        for ev in evs:
+            steps.append({"s": 1, "k": ev["k"], "id": ev["id"], "u": ev["u"], "v": ev["v"], "chk": 1, "ct": 0, "out": ev["out"],
+                          "res": rows_back(ev["res"] or []), "cnt": ev["cnt"], "pk": ev["pk"], "commit": cid, "w": ev["w"]})
+    return steps, scans, final, skipped
+
+
+def trace_validation(chk, binp, wd, runs, workers, units):
+    tf = os.path.join(wd, "free.ndjson")
+    dd = os.path.join(wd, "free")
+    os.makedirs(dd)
+    out, _ = vlib.run_harness(binp, ["-free", tf, "-dir", dd, "-seed", str(chk.seed), "-runs", str(runs), "-workers", str(workers), "-units", str(units)], timeout=900)
+    r = json.loads(out)
+    r["traces"] = 0
+    vlib.absorb(chk, r)
+    byrun = {}
+    for line in open(tf):
+        ev = json.loads(line)
+        byrun.setdefault(ev["run"], []).append(ev)
+    scripts, meta = [], []
+    maxid = 3
+    for run in sorted(byrun):
+        steps, scans, final, skipped = serialise(byrun[run])
+        if final is None:
+            raise MachineryFault("free run %d has no final scan" % run)
+        for rows in scans + [final]:
+            for row in rows:
+                maxid = max(maxid, int(row[0]))
+        for st in steps:
+            maxid = max(maxid, st["id"], st["pk"])
+        breach = any(real_breach(rows) for rows in scans + [final])
+        script = steps + [{"ev": "scan", "rows": rows_back(rows), "cmp": 0} for rows in scans] + [{"ev": "scan", "rows": rows_back(final), "cmp": 1}]
+        scripts.append(script)
+        meta.append({"run": run, "steps": steps, "final": final, "breach": breach, "skipped": skipped, "committed": len({s["commit"] for s in steps})})
+    c = consts(MaxId=maxid + 1, UVals={"a", "b", "c"}, ExplIds={1})
+    got, res = trace_run([(set(), sc) for sc in scripts], c, tag="sqltx-tv")
+    if res.violation or res.postcondition_failed:
+        raise MachineryFault("TraceSQLTx rejected the trace file itself: %s\n%s" % (res.violation, res.out[-1500:]))
+    chk.add_tlc(res, "TraceSQLTx: %d runs of %d free sessions, committed units in commit-id order" % (len(scripts), workers))
+    devs, dscripts = [], []
+    validated = 0
+    for b, m in enumerate(meta):
+        g = got.get(b)
+        if g is None:
+            if not m["steps"] and not m["final"]:
+                continue
+            raise MachineryFault("TraceSQLTx printed nothing for run %d" % m["run"])
+        if not g["mism"]:
+            if g["dead"]:
+                raise MachineryFault("serial script of run %d is not applicable in the model" % m["run"])
+            validated += 1
+            continue
+        i = g["mstep"]
+        ev = scripts[b][i]
+        field = g["mism"][1]
+        if ev.get("ev") == "scan":
+            kind = "scan"
+            text = "free run %d: %s, model %s" % (m["run"], "a scanned table violates a declared constraint: %s" % ev["rows"] if field == "breach" else
+                                                   "final table %s" % ev["rows"], g["steps"][-1]["tbl"] if g["steps"] else [])
+            upto = [x for x in scripts[b][:i] if x.get("ev") != "scan"] + [dict(ev, cmp=2)]
+        else:
+            kind = ev["k"]
+            model = g["steps"][i] if i < len(g["steps"]) else {}
+            text = ("free run %d (%d sessions): in commit-id order, statement %d of the unit committed as tx %d (%s id=%s u=%s v=%s by session %d) was observed as "
+                    "out=%s res=%s cnt=%s pk=%s; the design in that serial order gives out=%s res=%s cnt=%s pk=%s (%s differs)"
+                    % (m["run"], workers, i, ev["commit"], ev["k"], ev["id"], ev["u"], ev["v"], ev["w"], ev["out"], ev["res"], ev["cnt"], ev["pk"],
+                       model.get("out"), model.get("res"), model.get("cnt"), model.get("pk"), field))
+            upto = scripts[b][:i + 1]
+        devs.append({"kind": kind, "class": "constraint-breach" if (m["breach"] or field == "breach") else "serial-order", "text": text, "step": i,
+                     "origin": "free run %d seed %d" % (m["run"], chk.seed), "sql": None, "expected": None,
+                     "observed": [dict(x) for x in upto][-12:]})
+        dscripts.append(upto)
+    who = attribute(devs, c, scripts=dscripts)
+    report(chk, devs, who, "trace validation of free-running sessions")
+    chk.cov["traces_validated_against_impl"] += validated
+    chk.cov["free_runs"] = {"runs": len(meta), "accepted_in_full": validated, "committed_units": sum(m["committed"] for m in meta),
+                            "units_not_committed": sum(m["skipped"] for m in meta), "first_mismatch": len(devs)}
+    if sum(m["committed"] for m in meta) < runs:
+        raise MachineryFault("vacuous trace validation: only %d committed units" % sum(m["committed"] for m in meta))
 
 
 def run(chk, args):
